@@ -67,6 +67,10 @@ var corpus = []pat{
 	{`(?i)[k-s]+|K`, 0, []string{"k", "K", "K", "s", "ſ", "z", "S"}, "ignorecase kelvin"},
 	{`(a)|(b)|(c)|(d)|(e)|(f)|(g)|(h)|(i)|(j)|(k)`, 0, []string{"a", "e", "k", "z", "j", "b"}, "many groups"},
 	{`^.*$`, oM | oRE2, []string{"a", "\n", "bb", "\r", "é"}, "re2 multiline"},
+	{`(\w+)\s(\d+)`, oU | oI, []string{"abc", " ", "12", "ÉÉ", "٣٤", "K", "x"}, "unicode option"},
+	{`(a|b)\1+c?`, oE, []string{"a", "b", "aa", "bb", "c", "ab"}, "ecma backreference"},
+	{`(?P<word>\w+)-(?P<num>\d+)`, oRE2, []string{"ab", "-", "12", "x-7", " ", "é"}, "re2 named"},
+	{`(?<a>x)|(?<b>y)`, oN | oRTL, []string{"x", "y", "xy", "z"}, "explicitcapture rtl"},
 }
 
 // Catastrophic (pattern, input) families for timed operations.  Heavy at one
